@@ -9,7 +9,7 @@ LEVEL_NOTE = ("the invariant is proved on the proxy state-machine model for hist
 
 
 def gen_histories(rng, quick):
-    bufs = VALID[:3] + INVALID[:4]
+    bufs = VALID[:3] + INVALID[:4] + [lproxy.SHIFTED]
     ops = []
     for u in (U1, U2):
         for b in range(len(bufs)):
@@ -22,7 +22,7 @@ def gen_histories(rng, quick):
     ops.append(("close", UP, None))
     hs = []
     # exhaustive short histories over a reduced operation set, random longer ones over everything
-    small = [o for o in ops if o[0] in ("open", "change") and o[2] in (0, 3) and o[1] == U1] + [("close", U1, None), ("save", U1, 0), ("open", U2, 1), ("change", UP, 0)]
+    small = [o for o in ops if o[0] in ("open", "change") and o[2] in (0, 3, 7) and o[1] == U1] + [("close", U1, None), ("save", U1, 0), ("open", U2, 1), ("change", UP, 0)]
     depth = 3 if quick else 4
     for n in range(1, depth + 1):
         for combo in itertools.product(small, repeat=n):
